@@ -4,6 +4,7 @@
 -/
 import BS.Proofs.CacheReopen
 import BS.Proofs.AnyMix
+import BS.Proofs.CacheDev
 
 namespace BS.Props.C09
 open BS BS.Impl
@@ -105,6 +106,68 @@ theorem resume_point_exact (hdr ihdr : Bytes) (st : Store) (d : DataSess) (xs : 
         readRegion d.p cb proc ps (Spec.encode d.p xs) start (Spec.encode d.p xs).length full
           = foldProc proc ps (xs.drop k) :=
   lineOffset_spec hdr ihdr st d xs hinv hv k hk
+
+/-- **A cache that ran ahead of a torn source never makes the open panic or fail.**  The source
+survived as `xs`; the cache of bucket size `B` was written by a session that had seen the longer
+history `xs ++ lost` (any lost lines), its data file possibly cut itself at ANY byte, its index
+in any legitimate prior state, and it holds more buckets than the surviving lines fill.
+`open_or_create` succeeds, and EITHER the cache is emptied and rebuilt to exactly the state of an
+uninterrupted session over `xs` (`CacheInvLT`: the invariant of C08; only the in-memory
+`last_time` of a rebuilt cache that is still EMPTY may be stale), OR exactly one bucket `z` —
+the one straddling the end of the surviving lines, position `xs.length / B`, not newer than the
+last surviving line — is kept behind the exact bucket means of `xs`, and the handle skips the
+source lines that bucket already accounts for (`CacheKept`, phase 1). -/
+theorem cache_ahead_of_torn_source (shdr sihdr : Bytes) (dir : Dir) (src : DataSess) (xs lost : List Entry) (B : Nat)
+    (cb : Option Bool)
+    (hsrc : DataInv shdr sihdr dir.main src xs) (hvy : Valid src.p (xs ++ lost))
+    (hB : 1 ≤ B) (hB32 : B ≤ 2^32) (hH : (cacheUserHeader B).length ≤ 65535)
+    (hc : TailClean src.p (Spec.bucketMeans B (Spec.linMean src.p) (xs ++ lost)))
+    (hsize : (Spec.encode src.p (Spec.bucketMeans B (Spec.linMean src.p) (xs ++ lost))).length < 2^64)
+    (n : Nat)
+    (hdata : (dir.cache B).data = some (cacheHdr B ++
+      (Spec.encode src.p (Spec.bucketMeans B (Spec.linMean src.p) (xs ++ lost))).take n))
+    (hix : IndexState src.p (Spec.bucketMeans B (Spec.linMean src.p) (xs ++ lost)) (dir.cache B).index)
+    (hahead : xs.length < Spec.linesWithin src.p (Spec.bucketMeans B (Spec.linMean src.p) (xs ++ lost)) n * B) :
+    ∃ dir' c, cacheOpenOrCreate dir B src cb = (dir', .ok c) ∧ c.B = B ∧ c.d.p = src.p ∧ dir'.main = dir.main ∧
+      (∀ B', B' ≠ B → dir'.cache B' = dir.cache B') ∧
+      (CacheInvLT (cacheHdr B) cacheIhdr (dir'.cache B) c xs ∨
+       ∃ z, CacheKept (cacheHdr B) cacheIhdr (dir'.cache B) c xs (xs.length / B) z) := by
+  obtain ⟨dir', c, hopen, hcB, hcp, hmain, hother, hres⟩ :=
+    cacheOpenOrCreate_ahead shdr sihdr dir src xs lost B cb hsrc hvy hB hB32 hH hc hsize n hdata hix hahead
+  refine ⟨dir', c, hopen, hcB, hcp, hmain, hother, ?_⟩
+  rcases hres with h | ⟨z, hd, hvz, hr, hsk, h1, h2, h3, hz⟩
+  · exact Or.inl h
+  · right
+    refine ⟨z, ?_⟩
+    rw [← hcB]
+    apply kept_after_open
+    · rw [hcB]; exact hB
+    · rw [hcB]; exact hB32
+    · rw [hcB, hcp]; exact hd
+    · rw [hcB, hcp]; exact hvz
+    · rw [hcB]; exact hr
+    · rw [hcB]; exact hsk
+    · exact h1
+    · exact h2
+    · exact h3
+    · exact hz
+
+/-- **At most the one straddling bucket deviates — for ever.**  From the state in which `open`
+kept the straddling bucket `z` at position `q`, feed ANY further source lines `ys` (whatever
+makes `xs ++ ys` a valid history): `process` never fails or panics, and afterwards the cache's
+data file is `header ++ encode L` for a valid history `L` that agrees with the bucket means of
+`xs ++ ys` — the cache of an uninterrupted session — in EVERY position except `q`. -/
+theorem kept_bucket_is_the_only_deviation (hdr ihdr : Bytes) (st : Store) (c : CacheSess) (xs ys : List Entry)
+    (q : Nat) (z : Entry)
+    (h : CacheKept hdr ihdr st c xs q z) (hv : Valid c.d.p (xs ++ ys)) :
+    ∃ st' c' L, feedLines st c ys = .ok (st', c') ∧ c'.B = c.B ∧ c'.d.p = c.d.p ∧
+      st'.data = some (hdr ++ Spec.encode c.d.p L) ∧ Valid c.d.p L ∧
+      ∀ i, i ≠ q → L[i]? = (Spec.bucketMeans c.B (Spec.linMean c.d.p) (xs ++ ys))[i]? := by
+  obtain ⟨st', c', hfeed, hB', hp', hk⟩ := kept_forever hdr ihdr ys st c xs q z h hv
+  obtain ⟨L, hL, hvL, hagree⟩ := kept_content hdr ihdr st' c' (xs ++ ys) q z hk
+  rw [hB', hp'] at hagree
+  rw [hp'] at hL hvL
+  exact ⟨st', c', L, hfeed, hB', hp', hL, hvL, hagree⟩
 
 /-- a cache file shorter than its declared header is one of the covered states -/
 example (p B : Nat) (xs : List Entry) : CacheReopenOK p B xs { data := some [7] } :=
